@@ -589,6 +589,14 @@ func ruleTileAddressing(w *World, r *Run, h int64) {
 					caused = true
 				}
 			}
+			// a coordinate tlog never asks for (a negative index) is not a tile: refusing it refuses nothing
+			if !caused && len(s.Facts) > 0 {
+				if lf := s.Facts[len(s.Facts)-1]; lf.Pos && lf.T.Kind == "binop" && lf.T.Name == "<" && len(lf.T.Args) == 2 {
+					if c, ok := constVal(lf.T.Args[1]); ok && c.Sign() == 0 {
+						caused = true
+					}
+				}
+			}
 			r.Check(caused, "C18.c", rt+" | ReadTiles fails only when a fetch failed", w.pos(s.RetPos), "ReadTiles returns an error on a path where every fetch it made succeeded (or none was made): it refuses a tile on its own authority, so no consistency proof that needs that tile can ever be produced; path: "+pathString(e, s))
 		}
 		// results appended one per tile, in order
